@@ -172,7 +172,9 @@ func simPause(cs *compState) {
 			cancel()
 		}
 	})
-	if reason == "deadlock" || reason == "max-steps" {
+	if reason == "max-steps" && !k.Spun() {
+		k.Probe("comp-step-budget-exhausted")
+	} else if reason == "deadlock" || reason == "max-steps" {
 		bl := cs.Blocked()
 		if len(bl) > 0 && !cancelled {
 			var who []string
